@@ -75,7 +75,8 @@ def user_object_stores(chk, prog, rule: str):
             where = f"{fi.module}:{fi.qualname}"
             for st in stores(prog, fi, roles):
                 total += 1
-                hit = sorted(p for p in st.paths if p.startswith("USER."))
+                # 'X~' is a shallow copy of X: re-binding an attribute of the copy does not touch X (what is read from it does: sa/roles.py)
+                hit = sorted(p for p in st.paths if p.startswith("USER.") and "~" not in p)
                 if not hit:
                     continue
                 chk.fn(key)
